@@ -209,6 +209,27 @@ static void async_case(const Case &c, pbt::Ctx &ctx)
     auto *ranp = ran.get();
     int us = c.taskUs, v = c.value + i;
     std::vector<int> heap((size_t)(i % 5 + 1), i);
+    if (!g_skipInit && (c.action / 4) % 2 == 1) {
+      // the function is a NAMED object that the caller re-uses / overwrites right after async() returned
+      struct AJob
+      {
+        std::vector<int> heap;
+        std::atomic<int> *ranp;
+        int i, us, v;
+        T operator()() const
+        {
+          burn(us);
+          ranp[i].fetch_add(1);
+          return RV<T>::make(heap.empty() ? -1 : v);
+        }
+      };
+      AJob job{heap, ranp, i, us, v};
+      futs.push_back(async(job));
+      job.v = -777;
+      job.heap.clear();
+      ctx.label("async(lvalue functor), overwritten afterwards");
+      continue;
+    }
     futs.push_back(async([heap, ranp, i, us, v]() -> T {
       burn(us);
       ranp[i].fetch_add(1);
